@@ -93,5 +93,12 @@ func selectorData() []namedNode {
 		{`{"":[4,5],a:{"":1}}`, nMap(kv{"", nList(nInt(4), nInt(5))}, kv{"a", nMap(kv{"", nInt(1)})})},
 		{"{b:[{a:1}]}", nMap(kv{"b", nList(nMap(kv{"a", nInt(1)}))})},
 		{"{a:{x:[1,2]}}", nMap(kv{"a", nMap(kv{"x", nList(nInt(1), nInt(2))})})},
+		// maps whose keys read like indexes: an index segment applies to lists and bytes only
+		{`{"0":7,"1":8,"-1":9,"5":6}`, nMap(kv{"0", nInt(7)}, kv{"1", nInt(8)}, kv{"-1", nInt(9)}, kv{"5", nInt(6)})},
+		{`{a:{"0":[1,2],"-1":3}}`, nMap(kv{"a", nMap(kv{"0", nList(nInt(1), nInt(2))}, kv{"-1", nInt(3)})})},
+		// characters outside the BMP (two UTF-16 units) and combining marks (several characters per glyph)
+		{`"e+U+0301+xy"`, nStr("e\u0301xy")},
+		{`"U+1F600,a,U+0301,b,c"`, nStr("\U0001F600a\u0301bc")},
+		{`{a:"U+1F600,U+1F601,x"}`, nMap(kv{"a", nStr("\U0001F600\U0001F601x")})},
 	}
 }
